@@ -160,6 +160,7 @@ type c15Outcome struct {
 }
 
 func checkC15(t TB, c HistoryCase) c15Outcome {
+	noteCase("C15", "purity", c)
 	const P, K = "C15", "purity"
 	var o c15Outcome
 	o.calls = len(c.Calls)
@@ -327,6 +328,19 @@ func genHistory(t *rapid.T) HistoryCase {
 	if rapid.IntRange(0, 3).Draw(t, "repeat") == 0 && len(c.Calls) > 1 {
 		c.Calls = append(c.Calls, c.Calls[0])
 	}
+	if rapid.IntRange(0, 3).Draw(t, "twin") == 0 {
+		// two consecutive calls with different payloads of equal length and equal CRC-32 (memoisation keyed by a checksum)
+		fam := rapid.SampledFrom([]string{"aztec", "aztec", "pdf417", "datamatrix", "qr"}).Draw(t, "twinfam")
+		n := rapid.IntRange(5, 40).Draw(t, "twinlen")
+		a := make([]byte, n)
+		for i := range a {
+			a[i] = "ABCDEFGHIJ0123456789-abcdef ,.:"[rapid.IntRange(0, 30).Draw(t, "tw")]
+		}
+		s1 := EncSpec{Fam: fam, Content: BStr(a), A: map[string]int{"aztec": 33, "pdf417": 2, "qr": 1}[fam], B: map[string]int{"qr": 3}[fam]}
+		s2 := s1
+		s2.Content = BStr(crcTwin(a, rapid.IntRange(0, 1000).Draw(t, "twseed")))
+		c.Calls = append(c.Calls, s1, s2, s1)
+	}
 	return c
 }
 
@@ -417,6 +431,7 @@ func TestC15Orders(t *testing.T) {
 // checkDeterminism: one call repeated n times in this process must always give the same barcode
 // (map iteration order, pooled buffers, lazily built tables must not show).
 func checkDeterminism(t TB, s EncSpec) bool {
+	noteCase("C15", "determinism", s)
 	bc, err, pv := encodeSpec(s)
 	first := enc.Fingerprint(bc, err, pv)
 	for r := 1; r < 12; r++ {
